@@ -194,6 +194,7 @@ package vm
 //@   ensures work-bounded [C20]: work <= old(work)
 //@   witness-bytes input 256: input
 //@   witness index: index
+//@   modifies nothing
 //@ end
 
 //@ func (*vm.aspcontext).Run
@@ -256,6 +257,7 @@ package vm
 //@   ensures zero-length [C15]: n == 0 ==> size == 0 && !overflow
 //@   ensures covers-both-ranges [C15]: n != 0 && m + math(n) < 18446744073709551616 ==> !overflow && math(size) == m + math(n)
 //@   ensures overflow-flagged [C15]: n != 0 && m + math(n) >= 18446744073709551616 ==> overflow
+//@   modifies nothing
 //@ end
 
 //@ func vm.opMcopy(ctx, pc, interpreter, scope) (ret, err)
